@@ -134,7 +134,7 @@ func cmdSeq(args []string) int {
 	}
 	writeJSON(join(*out, "summary.json"), map[string]any{
 		"traces": w.Traces, "events": w.Events, "offsets": w.Offsets,
-		"workers": 5, "keys": maxKeys, "results": results,
+		"workers": 6, "keys": maxKeys, "results": results,
 		"impl_offsets": implOffsets, "impl_scripts": implIdx, "impl_events": iline,
 	})
 	return 0
